@@ -76,6 +76,9 @@ class _Canon(ast.NodeTransformer):
         self.generic_visit(node)
         if len(node.ops) == 1:
             op, l, r = node.ops[0], node.left, node.comparators[0]
+            # x in [a, b] -> x in (a, b)
+            if isinstance(op, (ast.In, ast.NotIn)) and isinstance(r, ast.List):
+                node.comparators = [ast.copy_location(ast.Tuple(elts=r.elts, ctx=ast.Load()), r)]
             if isinstance(op, ast.Gt):
                 node.left, node.ops, node.comparators = r, [ast.Lt()], [l]
             elif isinstance(op, ast.GtE):
@@ -695,6 +698,81 @@ class Program:
             self._index_module(m)
         self._link_classes()
         self._collect_self_attrs()
+        self._normalise_calls()
+
+    def _normalise_calls(self):
+        """Argument normal form for calls that resolve to exactly one package function: parameters
+        without a default are passed positionally, parameters with a default by keyword (the
+        package's own convention) - so `f(a, b)`, `f(a=a, b=b)` and `g(x, True)` / `g(x, flag=True)`
+        read the same.  Calls with * / ** arguments, calls to functions taking *args, and calls
+        that bind a parameter twice or not at all are left alone."""
+        from .resolve import Resolver
+        sh = self.__dict__.setdefault('_shared', {})
+        r = sh.setdefault('resolver', Resolver(self))
+        self.call_notes = 0
+        for f in list(self.functions.values()):
+            for c in [n for n in own_nodes(f.node) if isinstance(n, ast.Call)]:
+                if any(isinstance(a, ast.Starred) for a in c.args) or any(k.arg is None for k in c.keywords):
+                    continue
+                try:
+                    res = r.resolve(c, f, _count=False)
+                except Exception:
+                    continue
+                if res.kind != 'package' or len(res.targets) != 1:
+                    continue
+                t = res.targets[0]
+                if t.vararg or t.node.args.posonlyargs or t.node.args.kwarg is not None and any(k.arg not in t.params + t.kwonly for k in c.keywords):
+                    continue
+                params = list(t.params)
+                if t.cls is not None and t.outer is None and not t.is_static and params:
+                    # bound call (self.m(..), obj.m(..), Class(..)) drops the first parameter; Class.m(obj, ..) does not
+                    unbound = isinstance(c.func, ast.Attribute) and isinstance(c.func.value, ast.Name) and c.func.value.id in self.classes_by_name \
+                        and t.name != '__init__' and 'classmethod' not in t.decorators
+                    if not unbound:
+                        params = params[1:]
+                dm = t.defaults_map()
+                if len(c.args) > len(params):
+                    continue
+                bound = {}
+                ok = True
+                for p_, a in zip(params, c.args):
+                    bound[p_] = a
+                for k in c.keywords:
+                    if k.arg in bound or k.arg not in params + t.kwonly:
+                        ok = False
+                        break
+                    bound[k.arg] = k.value
+                if not ok:
+                    continue
+                new_args, new_kw = [], []
+                gap = False
+                for p_ in params:
+                    if p_ not in bound:
+                        gap = True
+                        continue
+                    if p_ in dm or gap:
+                        new_kw.append((p_, bound[p_]))
+                    else:
+                        new_args.append(bound[p_])
+                for p_ in t.kwonly:
+                    if p_ in bound:
+                        new_kw.append((p_, bound[p_]))
+                old_kw = {k.arg: k for k in c.keywords}
+                kws = []
+                for name, v in sorted(new_kw):
+                    k = old_kw.get(name)
+                    if k is None:
+                        k = ast.keyword(arg=name, value=v)
+                        ast.copy_location(k, v)
+                        k._parent, k._module, k._pos = c, getattr(c, '_module', None), getattr(v, '_pos', 0)
+                    kws.append(k)
+                if [id(a) for a in new_args] != [id(a) for a in c.args] or [k.arg for k in kws] != [k.arg for k in c.keywords]:
+                    self.call_notes += 1
+                    c.args, c.keywords = new_args, kws
+                    for a in new_args:
+                        a._parent = c
+                    for k in kws:
+                        k.value._parent = k
 
     def expanded(self):
         """The fully expanded view: same sources, every private non-overridden same-class
